@@ -1,13 +1,83 @@
-//! C18: `WriteableBytes`, `BytesCow::replace`, `read_to_end_or_max`, `kvarn::read::file`.
-//! Every component takes a trailing "junk" field that only the model uses
-//! (uninitialised memory cannot be chosen on the real side); it is ignored here.
+//! C18: `WriteableBytes`, `BytesCow::replace`, `read_to_end_or_max`, `kvarn::read::file` (the cached variants are in c18files.rs).
+//! Every component takes a trailing "junk" field that only the model uses (there it decides the contents of
+//! uninitialised memory).  On this side uninitialised memory is made recognisable instead: the harness installs a
+//! poisoning global allocator, every C18 component runs the real code twice with two different poison bytes, and a
+//! result that differs between the two runs is reported as `(L (N 91) run1 run2)` — "depends on bytes nobody wrote".
 use crate::xval::X;
 use bytes::{Buf, Bytes, BytesMut};
 use kvarn_utils::{BytesCow, WriteableBytes};
+use std::future::Future;
 use std::io::Write;
 use std::pin::Pin;
-use std::task::{Context, Poll};
+use std::task::{Context, Poll, Waker};
 use tokio::io::{AsyncRead, ReadBuf};
+
+/// Global allocator of the harness binary: the system allocator, except that while a poison byte is set every
+/// fresh allocation, every region gained by `realloc` and every freed block is filled with it (freed blocks with its
+/// complement).  Off (`MODE == 0`) it is a plain pass-through; only the C18 components switch it on.
+pub mod poison {
+    use std::alloc::{GlobalAlloc, Layout, System};
+    use std::sync::atomic::{AtomicUsize, Ordering};
+
+    static MODE: AtomicUsize = AtomicUsize::new(0);
+
+    pub struct Poison;
+    unsafe impl GlobalAlloc for Poison {
+        unsafe fn alloc(&self, l: Layout) -> *mut u8 {
+            let p = System.alloc(l);
+            let m = MODE.load(Ordering::Relaxed);
+            if m != 0 && !p.is_null() {
+                std::ptr::write_bytes(p, m as u8, l.size());
+            }
+            p
+        }
+        unsafe fn alloc_zeroed(&self, l: Layout) -> *mut u8 {
+            System.alloc_zeroed(l)
+        }
+        unsafe fn dealloc(&self, p: *mut u8, l: Layout) {
+            let m = MODE.load(Ordering::Relaxed);
+            if m != 0 {
+                std::ptr::write_bytes(p, !(m as u8), l.size());
+            }
+            System.dealloc(p, l)
+        }
+        unsafe fn realloc(&self, p: *mut u8, l: Layout, new: usize) -> *mut u8 {
+            let q = System.realloc(p, l, new);
+            let m = MODE.load(Ordering::Relaxed);
+            if m != 0 && !q.is_null() && new > l.size() {
+                std::ptr::write_bytes(q.add(l.size()), m as u8, new - l.size());
+            }
+            q
+        }
+    }
+    #[global_allocator]
+    static ALLOC: Poison = Poison;
+
+    pub fn set(byte: Option<u8>) {
+        MODE.store(byte.map_or(0, |b| 0x100 | b as usize), Ordering::SeqCst);
+    }
+}
+
+/// Runs the real code under two poison bytes; the answers must not differ.
+pub fn twice(f: impl Fn() -> X) -> X {
+    poison::set(Some(0xA5));
+    let a = crate::guarded(&f);
+    poison::set(Some(0x3C));
+    let b = crate::guarded(&f);
+    poison::set(None);
+    let trouble = |x: &X| matches!(x.as_l(), Some([X::N(93), ..]));
+    if trouble(&a) {
+        return a;
+    }
+    if trouble(&b) {
+        return b;
+    }
+    if a == b {
+        a
+    } else {
+        X::L(vec![X::N(91), a, b])
+    }
+}
 
 fn usize_of(x: &X) -> Option<usize> {
     usize::try_from(x.as_n()?).ok()
@@ -21,27 +91,113 @@ fn bytes_mut(init: &[u8], spare: usize) -> BytesMut {
     b
 }
 
-/// input: (L ctor (L (B w1) (B w2) ...) junk)
+/// The same contents and spare capacity in the other representations a `BytesMut` can be in (they grow differently):
+///   0 = fresh vector | 1 = vector advanced past a 7-byte prefix | 2 = allocation shared with a live (empty) tail
+///   3 = shared representation whose other handle is gone | 4 = advanced past a prefix longer than contents + spare
+fn stored(kind: u128, init: &[u8], spare: usize) -> Option<(BytesMut, Option<BytesMut>)> {
+    Some(match kind {
+        0 => (bytes_mut(init, spare), None),
+        1 => {
+            let mut b = BytesMut::with_capacity(7 + init.len() + spare);
+            b.extend_from_slice(b"prefix!");
+            b.extend_from_slice(init);
+            b.advance(7);
+            (b, None)
+        }
+        2 | 3 => {
+            let mut b = BytesMut::with_capacity(init.len() + spare + 5);
+            b.extend_from_slice(init);
+            let t = b.split_off(init.len() + spare);
+            if kind == 2 { (b, Some(t)) } else { (b, None) }
+        }
+        4 => {
+            let off = init.len() + spare + 2048;
+            let mut b = BytesMut::with_capacity(off + init.len() + spare);
+            b.resize(off, b'<');
+            b.extend_from_slice(init);
+            b.advance(off);
+            (b, None)
+        }
+        _ => return None,
+    })
+}
+
+/// input: (L ctor (L (B w1) (B w2) ...) junk [driver])
 ///   ctor = (L (N 0))                      WriteableBytes::new()
 ///        | (L (N 1) (N cap))              WriteableBytes::with_capacity(cap)
-///        | (L (N 2) (B init) (N spare))   WriteableBytes::from(BytesMut{init, capacity = len + spare})
+///        | (L (N 2) (B init) (N spare) [(N storage)])   WriteableBytes::from(BytesMut{init, capacity = len + spare}),
+///                                                       in the representation `stored(storage, ..)`
+///   driver (optional) = (N 0) `write` per slice | (N 1) `write_all` per slice | (N 2) `io::copy` of the concatenation
+///                       | (N 3) `write_vectored` of all slices at once (std's default: first non-empty slice), then the rest
 /// output: Ok (L (B into_inner) (N sum of the counts returned by write))
-pub fn writeable(x: &X) -> X {
-    let l = match x.as_l() { Some(l) if l.len() == 3 => l, _ => return X::bad() };
+fn writeable_once(x: &X) -> X {
+    let l = match x.as_l() { Some(l) if l.len() == 3 || l.len() == 4 => l, _ => return X::bad() };
     let (ctor, writes) = match (l[0].as_l(), l[1].as_l()) { (Some(c), Some(w)) => (c, w), _ => return X::bad() };
+    let driver = if l.len() == 4 { match l[3].as_n() { Some(d) => d, None => return X::bad() } } else { 0 };
+    let mut _keep_alive = None;
     let mut w = match ctor {
         [X::N(0)] => WriteableBytes::new(),
         [X::N(1), c] => match usize_of(c) { Some(c) => WriteableBytes::with_capacity(c), None => return X::bad() },
         [X::N(2), X::B(init), s] => match usize_of(s) { Some(s) => WriteableBytes::from(bytes_mut(init, s)), None => return X::bad() },
+        [X::N(2), X::B(init), s, X::N(k)] => match usize_of(s).and_then(|s| stored(*k, init, s)) {
+            Some((b, t)) => {
+                _keep_alive = t;
+                WriteableBytes::from(b)
+            }
+            None => return X::bad(),
+        },
         _ => return X::bad(),
     };
-    let mut total: usize = 0;
+    let mut slices = Vec::new();
     for wr in writes {
-        let wr = match wr.as_b() { Some(b) => b, None => return X::bad() };
-        match w.write(wr) {
-            Ok(n) => total += n,
-            Err(_) => return X::err(1),
+        match wr.as_b() { Some(b) => slices.push(b), None => return X::bad() }
+    }
+    let mut total: usize = 0;
+    match driver {
+        0 => {
+            for wr in &slices {
+                match w.write(wr) {
+                    Ok(n) => total += n,
+                    Err(_) => return X::err(1),
+                }
+            }
         }
+        1 => {
+            for wr in &slices {
+                if w.write_all(wr).is_err() {
+                    return X::err(1);
+                }
+                total += wr.len();
+            }
+        }
+        2 => {
+            let all: Vec<u8> = slices.concat();
+            match std::io::copy(&mut &all[..], &mut w) {
+                Ok(n) => total += n as usize,
+                Err(_) => return X::err(1),
+            }
+        }
+        3 => {
+            let mut rest: Vec<std::io::IoSlice<'_>> = slices.iter().map(|s| std::io::IoSlice::new(s)).collect();
+            let mut rest = &mut rest[..];
+            // `write_all_vectored` is unstable: the same loop by hand
+            while !rest.is_empty() {
+                match w.write_vectored(rest) {
+                    Ok(n) => {
+                        total += n;
+                        if n == 0 && rest.iter().all(|s| s.is_empty()) {
+                            break;
+                        }
+                        if n == 0 {
+                            return X::err(3);
+                        }
+                        std::io::IoSlice::advance_slices(&mut rest, n);
+                    }
+                    Err(_) => return X::err(1),
+                }
+            }
+        }
+        _ => return X::bad(),
     }
     if w.flush().is_err() {
         return X::err(2);
@@ -50,14 +206,63 @@ pub fn writeable(x: &X) -> X {
     X::ok(X::L(vec![X::b(&out[..]), X::n(total)]))
 }
 
+/// The storage kinds of the body handed to `replace`:
+///   0 = BytesCow::Ref(Bytes)  (spare ignored: take_mut copies the slice)
+///   1 = BytesCow::Mut(BytesMut with `spare` spare capacity)
+///   2 = BytesCow::Mut(BytesMut that was advanced past a 7-byte prefix: vector storage with an offset)
+///   3 = BytesCow::Mut(BytesMut whose allocation is shared with a live split-off tail)
+///   4 = BytesCow::Mut(BytesMut advanced past a prefix longer than the body: `reserve` can reclaim the front)
+///   5 = BytesCow::Mut(BytesMut in shared representation whose other handle is gone: unique Arc storage)
+///   6 = BytesCow::Ref(a slice out of the middle of a larger `Bytes`)
+fn make_cow(kind: u128, body: &[u8], spare: usize, rep_len: usize) -> Option<(BytesCow, Option<BytesMut>)> {
+    Some(match kind {
+        0 => (BytesCow::Ref(Bytes::copy_from_slice(body)), None),
+        1 => (BytesCow::Mut(bytes_mut(body, spare)), None),
+        2 => {
+            let mut b = BytesMut::with_capacity(7 + body.len() + spare);
+            b.extend_from_slice(b"prefix!");
+            b.extend_from_slice(body);
+            b.advance(7);
+            (BytesCow::Mut(b), None)
+        }
+        3 => {
+            let mut b = BytesMut::with_capacity(body.len() + spare + 5);
+            b.extend_from_slice(body);
+            b.extend_from_slice(b"tail!");
+            let t = b.split_off(body.len());
+            (BytesCow::Mut(b), Some(t))
+        }
+        4 => {
+            let off = body.len() + rep_len + 16;
+            let mut b = BytesMut::with_capacity(off + body.len() + spare);
+            b.resize(off, b'<');
+            b.extend_from_slice(body);
+            b.advance(off);
+            (BytesCow::Mut(b), None)
+        }
+        5 => {
+            let mut b = BytesMut::with_capacity(body.len() + spare + 5);
+            b.extend_from_slice(body);
+            b.extend_from_slice(b"gone!");
+            drop(b.split_off(body.len()));
+            (BytesCow::Mut(b), None)
+        }
+        6 => {
+            let mut v = Vec::with_capacity(body.len() + 9);
+            v.extend_from_slice(b"head");
+            v.extend_from_slice(body);
+            v.extend_from_slice(b"after");
+            let whole = Bytes::from(v);
+            (BytesCow::Ref(whole.slice(4..4 + body.len())), None)
+        }
+        _ => return None,
+    })
+}
+
 /// input: (L checked (N kind) (B body) (N spare) (N start) (N end) (B replacement) junk)
-///   kind 0 = BytesCow::Ref(Bytes)  (spare ignored: take_mut copies the slice)
-///        1 = BytesCow::Mut(BytesMut with `spare` spare capacity)
-///        2 = BytesCow::Mut(BytesMut that was advanced past a 7-byte prefix: vector storage with an offset)
-///        3 = BytesCow::Mut(BytesMut whose allocation is shared with a live split-off tail)
 /// `checked` only tells the model which arithmetic this binary was built with.
 /// output: Ok (B body after) | Panic
-pub fn replace(x: &X) -> X {
+fn replace_once(x: &X) -> X {
     let l = match x.as_l() { Some(l) if l.len() == 8 => l, _ => return X::bad() };
     let (kind, body, spare, start, end, rep) =
         match (l[1].as_n(), l[2].as_b(), usize_of(&l[3]), l[4].as_n(), l[5].as_n(), l[6].as_b()) {
@@ -68,53 +273,99 @@ pub fn replace(x: &X) -> X {
         (Ok(s), Ok(e)) => (s, e),
         _ => return X::L(vec![X::N(96)]),
     };
-    let mut _keep_alive = None;
-    let mut cow = match kind {
-        0 => BytesCow::Ref(Bytes::copy_from_slice(body)),
-        1 => BytesCow::Mut(bytes_mut(body, spare)),
-        2 => {
-            let mut b = BytesMut::with_capacity(7 + body.len() + spare);
-            b.extend_from_slice(b"prefix!");
-            b.extend_from_slice(body);
-            b.advance(7);
-            BytesCow::Mut(b)
+    let (mut cow, keep_alive) = match make_cow(kind, body, spare, rep.len()) { Some(c) => c, None => return X::bad() };
+    cow.replace(start..end, rep);
+    let out = X::b(&cow[..]);
+    if let Some(t) = &keep_alive {
+        if &t[..] != b"tail!" {
+            // the neighbouring handle of the shared allocation must be untouched
+            return X::L(vec![X::N(94)]);
         }
-        3 => {
-            let mut b = BytesMut::with_capacity(body.len() + spare + 5);
-            b.extend_from_slice(body);
-            b.extend_from_slice(b"tail!");
-            _keep_alive = Some(b.split_off(body.len()));
-            BytesCow::Mut(b)
-        }
+    }
+    X::ok(out)
+}
+
+/// input: (L checked (N kind) (B body) (N spare) (L (L (N start) (N end) (B replacement)) ...) (N post) junk)
+/// A chain of `replace` calls on the same `BytesCow` (what the Present extensions do), then
+///   post 0 = `&cow[..]` | 1 = `cow.freeze()` | 2 = `cow.into_mut()` | 3 = `cow.ref_mut()`
+/// output: Ok (B body after) | Panic
+fn replace_seq_once(x: &X) -> X {
+    let l = match x.as_l() { Some(l) if l.len() == 7 => l, _ => return X::bad() };
+    let (kind, body, spare, edits, post) = match (l[1].as_n(), l[2].as_b(), usize_of(&l[3]), l[4].as_l(), l[5].as_n()) {
+        (Some(k), Some(b), Some(sp), Some(e), Some(p)) => (k, b, sp, e, p),
         _ => return X::bad(),
     };
-    crate::guarded(move || {
-        cow.replace(start..end, rep);
-        let out = X::b(&cow[..]);
-        if let Some(t) = &_keep_alive {
-            if &t[..] != b"tail!" {
-                // the neighbouring handle of the shared allocation must be untouched
-                return X::L(vec![X::N(94)]);
-            }
+    let mut es = Vec::new();
+    for e in edits {
+        match e.as_l() {
+            Some([X::N(s), X::N(e), X::B(r)]) => match (usize::try_from(*s), usize::try_from(*e)) {
+                (Ok(s), Ok(e)) => es.push((s, e, &r[..])),
+                _ => return X::L(vec![X::N(96)]),
+            },
+            _ => return X::bad(),
         }
-        X::ok(out)
-    })
+    }
+    let longest = es.iter().map(|e| e.2.len()).max().unwrap_or(0);
+    let (mut cow, keep_alive) = match make_cow(kind, body, spare, longest) { Some(c) => c, None => return X::bad() };
+    for (s, e, r) in es {
+        cow.replace(s..e, r);
+    }
+    if let Some(t) = &keep_alive {
+        if &t[..] != b"tail!" {
+            return X::L(vec![X::N(94)]);
+        }
+    }
+    let out = match post {
+        0 => X::b(&cow[..]),
+        1 => X::b(&cow.freeze()[..]),
+        2 => X::b(&cow.into_mut()[..]),
+        3 => X::b(&cow.ref_mut()[..]),
+        _ => return X::bad(),
+    };
+    X::ok(out)
 }
 
 enum Ev {
     Data(Vec<u8>),
     Fail(u128),
+    Pend,
 }
+
+/// The `io::ErrorKind` a failure code stands for (the code itself travels in the message).
+fn kind_of(code: u128) -> std::io::ErrorKind {
+    use std::io::ErrorKind::*;
+    match code % 8 {
+        0 => Other,
+        1 => Interrupted,
+        2 => WouldBlock,
+        3 => ConnectionReset,
+        4 => UnexpectedEof,
+        5 => TimedOut,
+        6 => BrokenPipe,
+        _ => ConnectionAborted,
+    }
+}
+
 /// Scripted reader: a read returns min(|chunk|, room) bytes of the head chunk, empty chunks are
-/// skipped, a `Fail` event makes that read return an error, no chunk left = 0 bytes = EOF.
+/// skipped, a `Fail` event makes that read return an error of the kind `kind_of(code)`, a `Pend` event makes it
+/// return `Poll::Pending` (waking the task at once, unless `stall` says that this is the Pending the reader never
+/// recovers from), no event left = 0 bytes = EOF.
 struct Script {
     evs: std::collections::VecDeque<Ev>,
     consumed: usize,
     reads: usize,
+    pends: usize,
+    /// the Pending with this index (0-based) does not wake the task
+    stall: Option<usize>,
+    /// a read was handed an empty window
+    empty_window: bool,
 }
 impl AsyncRead for Script {
-    fn poll_read(mut self: Pin<&mut Self>, _cx: &mut Context<'_>, buf: &mut ReadBuf<'_>) -> Poll<std::io::Result<()>> {
+    fn poll_read(mut self: Pin<&mut Self>, cx: &mut Context<'_>, buf: &mut ReadBuf<'_>) -> Poll<std::io::Result<()>> {
         self.reads += 1;
+        if buf.remaining() == 0 {
+            self.empty_window = true;
+        }
         loop {
             match self.evs.pop_front() {
                 None => return Poll::Ready(Ok(())),
@@ -128,7 +379,17 @@ impl AsyncRead for Script {
                     return Poll::Ready(Ok(()));
                 }
                 Some(Ev::Fail(e)) => {
-                    return Poll::Ready(Err(std::io::Error::new(std::io::ErrorKind::Other, e.to_string())));
+                    return Poll::Ready(Err(std::io::Error::new(kind_of(e), e.to_string())));
+                }
+                Some(Ev::Pend) => {
+                    if self.stall == Some(self.pends) {
+                        // stalled for good: whoever polls again (a timer that fired, say) is told Pending again
+                        self.evs.push_front(Ev::Pend);
+                        return Poll::Pending;
+                    }
+                    cx.waker().wake_by_ref();
+                    self.pends += 1;
+                    return Poll::Pending;
                 }
             }
         }
@@ -139,54 +400,113 @@ fn runtime() -> tokio::runtime::Runtime {
     tokio::runtime::Builder::new_current_thread().enable_all().build().expect("runtime")
 }
 
-/// input: (L (B init) (N spare) (N max) (L ev...) junk)   ev = (B chunk) | (N error-code)
+/// input: (L (B init) (N spare) (N max) (L ev...) junk [patience [storage]])   ev = (B chunk) | (N error-code) | (L) = Pending
+///   storage (optional) = the representation of the buffer handed in, see `stored`
+///   patience (optional) = (L)               the caller polls until the helper is done
+///                       | (L (N k))         the caller drops the future at the (k+1)-th Pending (polled by hand)
+///                       | (L (N 0) (N ms))  the caller is `tokio::time::timeout(ms, ..)` and the reader stalls for good at its
+///                                           first Pending (which must be the only one in the script)
 /// output: (L (N 0) (B buffer) (N consumed-from-reader))            Ok(())
 ///       | (L (N 1) (N code) (B buffer) (N consumed-from-reader))   Err(_)
 ///       | (L (N 2))                                                panic
-pub fn read(x: &X) -> X {
-    let l = match x.as_l() { Some(l) if l.len() == 5 => l, _ => return X::bad() };
+///       | (L (N 4) (B buffer) (N consumed-from-reader))            the future was dropped (cancelled)
+/// `(L (N 90) answer)`: a read was handed an empty window (which a reader can only answer with 0 bytes = end of stream).
+fn read_once(x: &X) -> X {
+    let l = match x.as_l() { Some(l) if (5..=7).contains(&l.len()) => l, _ => return X::bad() };
+    let storage = if l.len() == 7 { match l[6].as_n() { Some(k) => k, None => return X::bad() } } else { 0 };
     let (init, spare, max, evs) = match (l[0].as_b(), usize_of(&l[1]), l[2].as_n(), l[3].as_l()) {
         (Some(i), Some(s), Some(m), Some(e)) => (i, s, m, e),
         _ => return X::bad(),
     };
     let max = match usize::try_from(max) { Ok(m) => m, Err(_) => return X::L(vec![X::N(96)]) };
-    let mut script = Script { evs: Default::default(), consumed: 0, reads: 0 };
+    let (patience, timeout_ms): (Option<usize>, Option<u64>) = if l.len() >= 6 {
+        match l[5].as_l() {
+            Some([]) => (None, None),
+            Some([k]) => match usize_of(k) { Some(k) => (Some(k), None), None => return X::bad() },
+            Some([X::N(0), ms]) => match usize_of(ms) { Some(ms) => (Some(0), Some(ms as u64)), None => return X::bad() },
+            _ => return X::bad(),
+        }
+    } else {
+        (None, None)
+    };
+    let mut script = Script { evs: Default::default(), consumed: 0, reads: 0, pends: 0, stall: patience, empty_window: false };
+    let mut npend = 0;
     for e in evs {
         match e {
             X::B(d) => script.evs.push_back(Ev::Data(d.clone())),
             X::N(c) => script.evs.push_back(Ev::Fail(*c)),
+            X::L(v) if v.is_empty() => {
+                npend += 1;
+                script.evs.push_back(Ev::Pend)
+            }
             _ => return X::bad(),
         }
     }
-    let mut buffer = bytes_mut(init, spare);
-    crate::guarded(move || {
+    if timeout_ms.is_some() && npend > 1 {
+        return X::bad();
+    }
+    let (mut buffer, _keep_alive) = match stored(storage, init, spare) { Some(b) => b, None => return X::bad() };
+    // None = the future was dropped before it finished
+    let r: Option<std::io::Result<()>> = if let Some(ms) = timeout_ms {
         let rt = runtime();
-        let r = rt.block_on(kvarn_async::read_to_end_or_max(&mut buffer, &mut script, max));
-        match r {
-            Ok(()) => X::L(vec![X::N(0), X::b(&buffer[..]), X::n(script.consumed)]),
-            Err(e) => {
-                let code = e.to_string().parse::<u128>().unwrap_or(u128::MAX);
-                X::L(vec![X::N(1), X::N(code), X::b(&buffer[..]), X::n(script.consumed)])
+        rt.block_on(async {
+            tokio::time::timeout(std::time::Duration::from_millis(ms), kvarn_async::read_to_end_or_max(&mut buffer, &mut script, max))
+                .await
+                .ok()
+        })
+    } else {
+        let mut fut = Box::pin(kvarn_async::read_to_end_or_max(&mut buffer, &mut script, max));
+        let mut cx = Context::from_waker(Waker::noop());
+        let mut left = patience;
+        let mut polls = 0usize;
+        loop {
+            polls += 1;
+            if polls > 10_000_000 {
+                return X::L(vec![X::N(93), X::b(b"the helper pends without asking the reader")]);
+            }
+            match fut.as_mut().poll(&mut cx) {
+                Poll::Ready(r) => break Some(r),
+                Poll::Pending => match left {
+                    Some(0) => break None,
+                    Some(k) => left = Some(k - 1),
+                    None => {}
+                },
             }
         }
-    })
+        // `fut` is dropped here: the cancellation
+    };
+    let out = match r {
+        Some(Ok(())) => vec![X::N(0), X::b(&buffer[..]), X::n(script.consumed)],
+        Some(Err(e)) => {
+            let code = e.to_string().parse::<u128>().ok().filter(|c| kind_of(*c) == e.kind()).unwrap_or(u128::MAX);
+            vec![X::N(1), X::N(code), X::b(&buffer[..]), X::n(script.consumed)]
+        }
+        None => vec![X::N(4), X::b(&buffer[..]), X::n(script.consumed)],
+    };
+    if script.empty_window {
+        // a read into an empty window cannot be told from the end of the stream
+        return X::L(vec![X::N(90), X::L(out)]);
+    }
+    X::L(out)
 }
 
 /// input: (L (B content) junk): the content is written to a fresh file under <verif>/.run/ and read back with
 /// the public `kvarn::read::file(path, None)` (= `read_file`), i.e. `read_to_end` into `BytesMut::with_capacity(4096)`.
 /// output: Ok (B bytes) | (L (N 1) (N 0)) when the file could not be read
-pub fn file(x: &X) -> X {
+fn file_once(x: &X) -> X {
     use std::sync::atomic::{AtomicUsize, Ordering};
     static SEQ: AtomicUsize = AtomicUsize::new(0);
     let l = match x.as_l() { Some(l) if l.len() == 2 => l, _ => return X::bad() };
     let content = match l[0].as_b() { Some(c) => c, None => return X::bad() };
     let dir = std::path::Path::new(env!("CARGO_MANIFEST_DIR")).parent().expect("verif dir").join(".run").join(format!("c18-{}", std::process::id()));
-    if std::fs::create_dir_all(&dir).is_err() {
-        return X::L(vec![X::N(95)]);
+    // trouble with the scratch directory is trouble of the harness, not an answer of kvarn: (L (N 93) ..) is run again
+    // by the driver and counted as not executed when it persists
+    if let Err(e) = std::fs::create_dir_all(&dir) {
+        return X::L(vec![X::N(93), X::b(format!("create_dir_all {}: {e}", dir.display()))]);
     }
     let path = dir.join(format!("f{}", SEQ.fetch_add(1, Ordering::Relaxed)));
-    if std::fs::write(&path, content).is_err() {
-        return X::L(vec![X::N(95)]);
+    if let Err(e) = std::fs::write(&path, content) {
+        return X::L(vec![X::N(93), X::b(format!("write {}: {e}", path.display()))]);
     }
     let p = path.to_string_lossy().to_string();
     let out = crate::guarded(|| {
@@ -201,13 +521,61 @@ pub fn file(x: &X) -> X {
     out
 }
 
+/// input: (L (N codec) (N level) (B body) junk): the body is compressed into a `WriteableBytes` the way
+/// `CompressedResponse::get_gzip / get_br / get_zstd` do it (src/comprash.rs: `with_capacity(len / 3 + 64)`, the encoder writes
+/// into `&mut buffer`, `into_inner().freeze()`), so the writes are the real encoders' (header bytes, 4-128 KiB blocks, trailers);
+/// what arrived in the buffer is decoded again with the standard decoder.   codec 0 = gzip, 1 = brotli, 2 = zstd
+/// output: Ok (B decoded) | Err 1 (the encoder reported an error) | Err 2 (what is in the buffer does not decode)
+fn encode_once(x: &X) -> X {
+    use std::io::Read;
+    let l = match x.as_l() { Some(l) if l.len() == 4 => l, _ => return X::bad() };
+    let (codec, level, bytes) = match (l[0].as_n(), l[1].as_n(), l[2].as_b()) {
+        (Some(c), Some(lv), Some(b)) => (c, lv as u32, b),
+        _ => return X::bad(),
+    };
+    let mut buffer = WriteableBytes::with_capacity(bytes.len() / 3 + 64);
+    let ok = match codec {
+        0 => {
+            let mut c = flate2::write::GzEncoder::new(&mut buffer, flate2::Compression::new(level.min(9)));
+            c.write_all(bytes).is_ok() && c.finish().is_ok()
+        }
+        1 => {
+            let mut c = brotli::CompressorWriter::new(&mut buffer, 4096, level.min(11), 21);
+            let ok = c.write_all(bytes).is_ok() && c.flush().is_ok();
+            c.into_inner();
+            ok
+        }
+        2 => match zstd::Encoder::new(&mut buffer, level.min(19) as i32) {
+            Ok(mut e) => e.write_all(bytes).is_ok() && e.finish().is_ok(),
+            Err(_) => false,
+        },
+        _ => return X::bad(),
+    };
+    if !ok {
+        return X::err(1);
+    }
+    let out = buffer.into_inner().freeze();
+    let mut back = Vec::new();
+    let decoded = match codec {
+        0 => flate2::read::GzDecoder::new(&out[..]).read_to_end(&mut back).is_ok(),
+        1 => brotli::Decompressor::new(&out[..], 4096).read_to_end(&mut back).is_ok(),
+        _ => zstd::Decoder::new(&out[..]).and_then(|mut d| d.read_to_end(&mut back)).is_ok(),
+    };
+    if !decoded {
+        return X::err(2);
+    }
+    X::ok(X::b(&back))
+}
+
 pub fn dispatch(comp: &str, x: &X) -> Option<X> {
     Some(match comp {
-        "buf.writeable" => writeable(x),
-        "buf.replace" => replace(x),
-        // "buf.read.legacy" is the same real function; only the model side differs (the code before the repair)
-        "buf.read" | "buf.read.legacy" => read(x),
-        "buf.file" => file(x),
+        "buf.encode" => twice(|| encode_once(x)),
+        "buf.writeable" => twice(|| writeable_once(x)),
+        "buf.replace" => twice(|| replace_once(x)),
+        "buf.replace_seq" => twice(|| replace_seq_once(x)),
+        // "buf.read.legacy*" is the same real function; only the model side differs (the code before the repairs)
+        "buf.read" | "buf.read.legacy" | "buf.read.unguarded" => twice(|| read_once(x)),
+        "buf.file" => twice(|| file_once(x)),
         _ => return None,
     })
 }
